@@ -55,6 +55,14 @@ type sApp struct {
 	Sys   *sSys
 }
 
+// nodeutil.Node does not support slices of struct values ("creating type not supported")
+type sAppP struct {
+	User  []*sUser
+	Route []*sRoute
+	Item  []*sItem
+	Sys   *sSys
+}
+
 // struct fields cannot be "unset": zero values read back as data. The generator therefore never
 // produces zero values for this schema, and exports drop zero-valued leaves (they stand for unset).
 func nonZero(s *tree.SNode, c *tree.Cont) {
@@ -155,12 +163,11 @@ func c18StructHistories(ctx *core.Ctx, r *gen.Rng, count int) error {
 		seed := dr.U64()
 		for kind := 2; kind < 4; kind++ {
 			or := gen.New(seed)
-			app := &sApp{}
 			var n node.Node
 			if kind == 2 {
-				n = nodeutil.ReflectChild(app)
+				n = nodeutil.ReflectChild(&sApp{})
 			} else {
-				n = &nodeutil.Node{Object: app}
+				n = &nodeutil.Node{Object: &sAppP{}}
 			}
 			t := &c18Target{kind: kind, m: m, root: root, b: node.NewBrowser(m, n), struct_: true}
 			// the initial content is brought in through the library itself
